@@ -83,7 +83,8 @@ class FilesPart(Part):
 
     def cases(self):
         out = []
-        salts = ["saltForTest", "seed%d" % self.seed, ""]
+        # (a pass-phrase longer than one md5 block, and one of exactly 64 characters)
+        salts = ["saltForTest", "seed%d" % self.seed, "", "correct horse battery staple " * 3, "x" * 64]
         for B in ([0, 8] if self.tier == "quick" else [0, 1, 8, 17, 32]):
             for salt in salts:
                 for nets in (None, ["10.129.0.0/16"]):
@@ -93,6 +94,9 @@ class FilesPart(Part):
     def _run_once(self, root, files, order, mode, cfg, tag):
         from netconan.anonymize_files import anonymize_files
 
+        # every run starts from the process state of a fresh interpreter (runs in one process with
+        # state carried over are the subject of the job-sequence part)
+        seams.restore_globals()
         ind = os.path.join(root, "in-" + tag)
         outd = os.path.join(root, "out-" + tag)
         seams.write_tree(ind, {f: (FILES[f] if f in FILES else b"\xff\xfe binary \x00\x81 garbage\n") for f in files})
